@@ -31,6 +31,8 @@ type splitCase struct {
 	Fields []sField `json:"fields"`
 	E2E    bool     `json:"e2e"`
 	Mem    int      `json:"mem"`
+	// Again: further targets generated afterwards from the SAME builder (a history of Read* calls)
+	Again []sTarget `json:"again"`
 }
 
 func toField(f sField) modbus.Field {
@@ -127,7 +129,19 @@ func driveSplit(w *writer) error {
 			fs = append(fs, toField(f))
 		}
 		b.AddAll(fs)
-		e := Ev{"ev": "split", "target": c.Target, "fields": c.Fields, "outcome": "", "requests": []Ev{}}
+		all := append([]sTarget{c.Target}, c.Again...)
+		for i, t := range all {
+			splitOnce(w, &c, b, t, all[:i])
+		}
+		return nil
+	})
+}
+
+// splitOnce generates the requests for one target from the (shared) builder and, for e2e cases, runs the
+// device / parse / extract chain on every produced request.  The event always carries the ORIGINAL field list.
+func splitOnce(w *writer, c *splitCase, b *modbus.Builder, target sTarget, hist []sTarget) {
+	{
+		e := Ev{"ev": "split", "target": target, "fields": c.Fields, "outcome": "", "requests": []Ev{}, "hist": hist}
 		if c.Fields == nil {
 			e["fields"] = []sField{}
 		}
@@ -139,7 +153,7 @@ func driveSplit(w *writer) error {
 				}
 			}()
 			var err error
-			reqs, err = doSplit(b, c.Target)
+			reqs, err = doSplit(b, target)
 			if err != nil {
 				e["outcome"] = "err"
 				return
@@ -152,8 +166,8 @@ func driveSplit(w *writer) error {
 			e["requests"] = ds
 		}()
 		w.emit(e)
-		if !c.E2E || e["outcome"] != "ok" {
-			return nil
+		if !c.E2E || e["outcome"] != "ok" || target.Fc < 3 {
+			return
 		}
 		for _, r := range reqs {
 			d := reqDesc(r)
@@ -169,24 +183,24 @@ func driveSplit(w *writer) error {
 				data := memBytes(c.Mem, r.ServerAddress, int(r.UnitID), int(r.StartAddress), qty-tr)
 				var respBytes []byte
 				tid := uint16(0)
-				if c.Target.Framing == "tcp" {
+				if target.Framing == "tcp" {
 					bb := r.Request.Bytes()
 					tid = uint16(bb[0])<<8 | uint16(bb[1])
 				}
 				hdr := packet.MBAPHeader{TransactionID: tid}
 				switch {
-				case c.Target.Fc == 3 && c.Target.Framing == "tcp":
+				case target.Fc == 3 && target.Framing == "tcp":
 					respBytes = packet.ReadHoldingRegistersResponseTCP{MBAPHeader: hdr, ReadHoldingRegistersResponse: packet.ReadHoldingRegistersResponse{UnitID: r.UnitID, RegisterByteLen: uint8(len(data)), Data: data}}.Bytes()
-				case c.Target.Fc == 3:
+				case target.Fc == 3:
 					respBytes = packet.ReadHoldingRegistersResponseRTU{ReadHoldingRegistersResponse: packet.ReadHoldingRegistersResponse{UnitID: r.UnitID, RegisterByteLen: uint8(len(data)), Data: data}}.Bytes()
-				case c.Target.Fc == 4 && c.Target.Framing == "tcp":
+				case target.Fc == 4 && target.Framing == "tcp":
 					respBytes = packet.ReadInputRegistersResponseTCP{MBAPHeader: hdr, ReadInputRegistersResponse: packet.ReadInputRegistersResponse{UnitID: r.UnitID, RegisterByteLen: uint8(len(data)), Data: data}}.Bytes()
 				default:
 					respBytes = packet.ReadInputRegistersResponseRTU{ReadInputRegistersResponse: packet.ReadInputRegistersResponse{UnitID: r.UnitID, RegisterByteLen: uint8(len(data)), Data: data}}.Bytes()
 				}
 				for _, mode := range []string{"strict", "lenient"} {
-					x := Ev{"ev": "extract", "target": c.Target, "mem": c.Mem, "req": d, "mode": mode, "truncBy": tr, "response": ints(respBytes),
-						"parsed": "", "outcome": "", "hadErr": false, "values": []Ev{}}
+					x := Ev{"ev": "extract", "target": target, "mem": c.Mem, "req": d, "mode": mode, "truncBy": tr, "response": ints(respBytes),
+						"parsed": "", "outcome": "", "hadErr": false, "values": []Ev{}, "hist": hist}
 					func() {
 						defer func() {
 							if p := recover(); p != nil {
@@ -197,7 +211,7 @@ func driveSplit(w *writer) error {
 						in := withTail(respBytes, []byte{0xEE, 0xEE, 0xEE, 0xEE, 0xEE, 0xEE, 0xEE, 0xEE})
 						var resp packet.Response
 						var err error
-						if c.Target.Framing == "tcp" {
+						if target.Framing == "tcp" {
 							resp, err = packet.ParseTCPResponse(in)
 						} else {
 							resp, err = packet.ParseRTUResponseWithCRC(in)
@@ -229,6 +243,5 @@ func driveSplit(w *writer) error {
 				}
 			}
 		}
-		return nil
-	})
+	}
 }
